@@ -434,7 +434,11 @@ class DiscreteQuadraticModel:
 
         # np.load looks for the end of the archive at the end of the *file*:
         # hand it this section only (a VARS section may follow)
-        data = np.load(io.BytesIO(file_like.read(int(length))))
+        blob = file_like.read(int(length))
+        if len(blob) != length:
+            # a short section must not be searched for an archive: its payload may spell one
+            raise ValueError("truncated file: the data section is shorter than its recorded length")
+        data = np.load(io.BytesIO(blob))
 
         obj = cls.from_numpy_vectors(data['case_starts'],
                                      data['linear_biases'],
